@@ -97,9 +97,7 @@ pub(crate) fn poke_handover(h: usize, v: usize) {
 /// Any generation value the thread-local counter can hold (multiple of 4, including the last one
 /// before the wrap-around).
 pub(crate) fn any_generation() -> usize {
-    let g = nd::any_usize();
-    nd::assume(g % 4 == 0);
-    g
+    nd::any_usize() & !3usize
 }
 
 const A1: usize = 0x5000;
@@ -114,7 +112,7 @@ const P2: usize = 0x2000;
 // trace:    active_addr.store precedes control.swap; the control swap is SeqCst.
 // @harness name=l1_helping_get_debt props=C13,C01,C02 tier=quick flavour=nostd fn=helping::Slots::get_debt
 #[cfg_attr(kani, kani::proof)]
-#[cfg_attr(kani, kani::unwind(34))]
+#[cfg_attr(kani, kani::unwind(66))]
 pub(crate) fn l1_helping_get_debt() {
     let mut s = Slots::default();
     s.init();
@@ -161,7 +159,7 @@ pub(crate) fn l1_helping_get_debt() {
 // trace:    slot.swap (SeqCst) precedes control.swap.
 // @harness name=l1_helping_confirm props=C01,C02,C13 tier=quick flavour=nostd fn=helping::Slots::confirm
 #[cfg_attr(kani, kani::proof)]
-#[cfg_attr(kani, kani::unwind(34))]
+#[cfg_attr(kani, kani::unwind(66))]
 pub(crate) fn l1_helping_confirm() {
     let mut s = Slots::default();
     s.init();
@@ -234,7 +232,7 @@ fn replacement() -> TP {
 // frame:    who.slot, who.active_addr, who.space_offer never written by the helper.
 // @harness name=l1_helping_help props=C01,C02,C12,C03 tier=quick flavour=nostd fn=helping::Slots::help
 #[cfg_attr(kani, kani::proof)]
-#[cfg_attr(kani, kani::unwind(34))]
+#[cfg_attr(kani, kani::unwind(66))]
 pub(crate) fn l1_helping_help() {
     let mut me = Slots::default();
     me.init();
